@@ -52,6 +52,23 @@ func getBase(options multiTag, base int) (int, error) {
 	return base, err
 }
 
+// getFormatBase returns the base to render integers with. Unlike the parsing
+// functions of strconv, which report an invalid base as an error, its
+// formatting functions panic on a base outside 2..36.
+func getFormatBase(options multiTag) (int, error) {
+	base, err := getBase(options, 10)
+
+	if err != nil {
+		return 0, err
+	}
+
+	if base < 2 || base > 36 {
+		return 0, fmt.Errorf("invalid base %d: must be between 2 and 36", base)
+	}
+
+	return base, nil
+}
+
 func convertMarshal(val reflect.Value) (bool, string, error) {
 	// Check first for the Marshaler interface
 	if val.IsValid() && val.Type().NumMethod() > 0 && val.CanInterface() {
@@ -91,7 +108,7 @@ func convertToString(val reflect.Value, options multiTag) (string, error) {
 
 		return "false", nil
 	case reflect.Int, reflect.Int8, reflect.Int16, reflect.Int32, reflect.Int64:
-		base, err := getBase(options, 10)
+		base, err := getFormatBase(options)
 
 		if err != nil {
 			return "", err
@@ -99,7 +116,7 @@ func convertToString(val reflect.Value, options multiTag) (string, error) {
 
 		return strconv.FormatInt(val.Int(), base), nil
 	case reflect.Uint, reflect.Uint8, reflect.Uint16, reflect.Uint32, reflect.Uint64:
-		base, err := getBase(options, 10)
+		base, err := getFormatBase(options)
 
 		if err != nil {
 			return "", err
